@@ -88,22 +88,24 @@ template <bool NoneIsLeaf>
             throw py::value_error("PyTree type " + PyRepr(cls) +
                                   " is already registered in the global namespace.");
         }
+        // NOTE: if the warning is turned into an exception, roll back the registration.
+        const auto warn = [&registry, &cls](const std::string& message) -> void {
+            if (PyErr_WarnEx(PyExc_UserWarning, message.c_str(), /*stack_level=*/2) < 0)
+                [[unlikely]] {
+                registry->m_registrations.erase(cls);
+                throw py::error_already_set();
+            }
+        };
         if (IsStructSequenceClass(cls)) [[unlikely]] {
-            PyErr_WarnEx(PyExc_UserWarning,
-                         ("PyTree type " + PyRepr(cls) +
-                          " is a class of `PyStructSequence`, "
-                          "which is already registered in the global namespace. "
-                          "Override it with custom flatten/unflatten functions.")
-                             .c_str(),
-                         /*stack_level=*/2);
+            warn("PyTree type " + PyRepr(cls) +
+                 " is a class of `PyStructSequence`, "
+                 "which is already registered in the global namespace. "
+                 "Override it with custom flatten/unflatten functions.");
         } else if (IsNamedTupleClass(cls)) [[unlikely]] {
-            PyErr_WarnEx(PyExc_UserWarning,
-                         ("PyTree type " + PyRepr(cls) +
-                          " is a subclass of `collections.namedtuple`, "
-                          "which is already registered in the global namespace. "
-                          "Override it with custom flatten/unflatten functions.")
-                             .c_str(),
-                         /*stack_level=*/2);
+            warn("PyTree type " + PyRepr(cls) +
+                 " is a subclass of `collections.namedtuple`, "
+                 "which is already registered in the global namespace. "
+                 "Override it with custom flatten/unflatten functions.");
         }
     } else [[likely]] {
         if (!registry->m_named_registrations
@@ -114,6 +116,14 @@ template <bool NoneIsLeaf>
                 << PyRepr(registry_namespace) << ".";
             throw py::value_error(oss.str());
         }
+        // NOTE: if the warning is turned into an exception, roll back the registration.
+        const auto warn = [&registry, &cls, &registry_namespace](const std::string& message) -> void {
+            if (PyErr_WarnEx(PyExc_UserWarning, message.c_str(), /*stack_level=*/2) < 0)
+                [[unlikely]] {
+                registry->m_named_registrations.erase(std::make_pair(registry_namespace, cls));
+                throw py::error_already_set();
+            }
+        };
         if (IsStructSequenceClass(cls)) [[unlikely]] {
             std::ostringstream oss{};
             oss << "PyTree type " << PyRepr(cls)
@@ -121,9 +131,7 @@ template <bool NoneIsLeaf>
                    "which is already registered in the global namespace. "
                    "Override it with custom flatten/unflatten functions in namespace "
                 << PyRepr(registry_namespace) << ".";
-            PyErr_WarnEx(PyExc_UserWarning,
-                         oss.str().c_str(),
-                         /*stack_level=*/2);
+            warn(oss.str());
         } else if (IsNamedTupleClass(cls)) [[unlikely]] {
             std::ostringstream oss{};
             oss << "PyTree type " << PyRepr(cls)
@@ -131,9 +139,7 @@ template <bool NoneIsLeaf>
                    "which is already registered in the global namespace. "
                    "Override it with custom flatten/unflatten functions in namespace "
                 << PyRepr(registry_namespace) << ".";
-            PyErr_WarnEx(PyExc_UserWarning,
-                         oss.str().c_str(),
-                         /*stack_level=*/2);
+            warn(oss.str());
         }
     }
 }
@@ -150,11 +156,17 @@ template <bool NoneIsLeaf>
                                unflatten_func,
                                path_entry_type,
                                registry_namespace);
-    RegisterImpl<NONE_IS_LEAF>(cls,
-                               flatten_func,
-                               unflatten_func,
-                               path_entry_type,
-                               registry_namespace);
+    try {
+        RegisterImpl<NONE_IS_LEAF>(cls,
+                                   flatten_func,
+                                   unflatten_func,
+                                   path_entry_type,
+                                   registry_namespace);
+    } catch (...) {
+        // Keep the two registries consistent.
+        (void)UnregisterImpl<NONE_IS_NODE>(cls, registry_namespace);
+        throw;
+    }
     cls.inc_ref();
     flatten_func.inc_ref();
     unflatten_func.inc_ref();
